@@ -63,6 +63,15 @@ def specs(T):
     T.body_contains(S, 'rolling_median', 'rolled = signal.rolling(2 * wing + 1, 1, center=True).median()')
     T.body_contains(S, '_pad_array', 'return np.concatenate((x[wing - 1::-1], x, x[:-wing - 1:-1]))')
 
+    # ---- do_fix: the clustered-reference path (do_cluster=True) is OUTSIDE the model; with the default the log2 /
+    # spread columns subtracted and weighted are the plain ones
+    do_cluster = T.default(F, 'do_fix', 'do_cluster')
+    log2_key = T.local(F, 'do_fix', 'log2_key')
+    spread_key = T.local(F, 'do_fix', 'spread_key')
+    T.body_contains(F, 'do_fix', "cnarr.data['log2'] -= ref_matched[log2_key]")
+    T.body_contains(F, 'do_fix', 'cnarr = apply_weights(cnarr, ref_matched, log2_key, spread_key)')
+    T.body_contains(F, 'do_fix', 'cnarr.center_all(skip_low=True, diploid_parx_genome=diploid_parx_genome)')
+
     return {'FixDefaults': [
         ('weight_epsilon', 'Q', eps),
         ('weight_blend_x', 'Q', x),
@@ -70,4 +79,7 @@ def specs(T):
         ('autosome_pattern', 'string', auto_pat),
         ('min_wing', 'Z', min_wing),
         ('fix_presorts', 'bool', presorts),
+        ('fix_do_cluster_default', 'bool', do_cluster),
+        ('fix_log2_key', 'string', log2_key),
+        ('fix_spread_key', 'string', spread_key),
     ]}
